@@ -388,6 +388,65 @@ def run_cfg(cfg):
         shutil.rmtree(d, ignore_errors=True)
 
 
+def run_test_programs(arg):
+    """the example programs the generator writes next to the library (tests/*.cpp, built by default by the generated
+    CMake project; a Debug build adds -DNAUNET_DEBUG) are generated sources too: with the rendered headers each of
+    them must compile without diagnostics about undeclared names, in both build types"""
+    backend, cooling = arg
+    from ..harness.cxx import GXX, SHIM, run as runcmd
+    from ..harness.render import BACKENDS, render, reset_globals, quiet, scratch, template_loader
+
+    reset_globals()
+    from . import odecommon as oc
+
+    viols = []
+    n = 0
+    d = Path(tempfile.mkdtemp(dir=scratch()))
+    try:
+        with quiet():
+            net = oc.build_network({"reactions": [[["H", "H"], ["H2"]], [["H", "e-"], ["H+", "e-", "e-"]], [["H+", "e-"], ["H"]]], "cooling": list(cooling)})
+            files = render(net, backend, None)
+            template_loader(*BACKENDS[backend]).render_tests(path=d)
+        for rel, text in files.items():
+            p_ = d / rel
+            p_.parent.mkdir(parents=True, exist_ok=True)
+            p_.write_text(text)
+        # the programs the generated tests/CMakeLists.txt builds (without CUDA); the other files of tests/ are
+        # skeletons whose blocks the bundled examples fill in (serialdata.cpp uses an `nsystem` its empty block omits)
+        targets = cmake_list((d / "tests" / "CMakeLists.txt").read_text(), "TESTTARGETS", {"languages": ["C", "CXX"]})
+        progs = [f"tests/{t_}.cpp" for t_ in targets]
+        if not progs:
+            raise HarnessError("tests/CMakeLists.txt lists no test target")
+        for rel in list(progs):
+            if not (d / rel).exists():
+                viols.append((f"C10:build-lists-missing-source:{rel}", f"{backend}: tests/CMakeLists.txt builds {rel}, which is not generated", {"test_programs": backend, "cooling": list(cooling)}))
+                progs.remove(rel)
+        for rel in progs:
+            for defs in ([], ["-DNAUNET_DEBUG"]):
+                n += 1
+                rc, so, se = runcmd([GXX, "-std=c++17", "-fsyntax-only", "-w", "-fmax-errors=0", "-fdiagnostics-plain-output", *defs, "-I", str(SHIM), "-I", "include", rel], cwd=str(d), timeout=300)
+                if rc == 0:
+                    continue
+                seen = set()
+                for line in se.splitlines():
+                    if " error: " not in line:
+                        continue
+                    msg = line.split(" error: ", 1)[1]
+                    if not NAME_DIAG.search(msg):
+                        continue
+                    m = re.search(r"[‘'`]([^’']+)[’']", msg)
+                    ident = m.group(1) if m else "?"
+                    if SHIM_NAME.match(ident):
+                        raise HarnessError(f"shim gap: {msg} ({backend}, {rel})")
+                    if ident in seen:
+                        continue
+                    seen.add(ident)
+                    viols.append((f"C10:test-program:{Path(rel).stem}:{'debug' if defs else 'release'}:{ident}", f"{backend}: {rel} {' '.join(defs)}: {msg}", {"test_programs": backend, "cooling": list(cooling)}))
+        return n, viols
+    finally:
+        shutil.rmtree(d, ignore_errors=True)
+
+
 def run(ctx):
     cfgs = configs(ctx.tier)
     nfiles = nother = 0
@@ -403,7 +462,11 @@ def run(ctx):
         for tag, exn in refused:
             refused_all[f"{tag}:{exn}"] = refused_all.get(f"{tag}:{exn}", 0) + 1
         ctx.absorb(viols)
+    for n_, viols in ctx.pmap(run_test_programs, [(b, th) for b in BACKENDS for th in ([], ["CIC_HI"])]):
+        nfiles += n_
+        ctx.absorb(viols)
     ctx.assumptions += [
+        "the generated example programs tests/*.cpp are compiled (-fsyntax-only) against the rendered headers of every back-end, with and without -DNAUNET_DEBUG (what the generated CMake project adds for a Debug build)",
         "the SUNDIALS/Boost API is a hand-written shim (no SUNDIALS/Boost in the image); a diagnostic naming a shim/libc identifier is a harness error, never a violation",
         "for the full probe networks (quick: every second configuration) the translation units are also compiled and linked with an empty main and trivial CVODE entry points: an undefined or doubly defined symbol of the generated code is a violation (closed program)",
         "only diagnostics about undeclared / redeclared / redefined names are judged here; other compiler errors are counted (other_diagnostics) and belong to C05/C16",
@@ -425,5 +488,8 @@ def run(ctx):
 
 
 def replay(ctx, case):
+    if "test_programs" in case:
+        ctx.absorb(run_test_programs((case["test_programs"], case.get("cooling", [])))[1])
+        return
     label, nf, viols, refused, other = run_cfg(case)
     ctx.absorb(viols)
